@@ -22,6 +22,9 @@ type Scenario struct {
 	QueueCap int      `json:"queue_cap,omitempty"`
 	CLIFlags []string `json:"cli_flags,omitempty"`
 	CLIPaths []string `json:"cli_paths,omitempty"` // relative to the scratch tree ("." if empty)
+	// kind C: file-system faults met by the program (the per-file reference
+	// runs meet none)
+	FSFaults []FSFault `json:"fs_faults,omitempty"`
 
 	// C13
 	History []Op `json:"history,omitempty"`
@@ -59,6 +62,16 @@ type Input struct {
 	// AbortAt-th time (a caller aborting the parse from inside its callback);
 	// the pipeline recovers and records the abort as its outcome
 	AbortAt int `json:"abort_at,omitempty"`
+}
+
+// FSFault: an I/O error of the simulated program on one file.
+//
+//	write-err : every WriteFile of the file fails with EACCES, nothing is written
+//	write-torn: WriteFile of the file stores the first half of the data, then fails with ENOSPC
+//	read-err  : every ReadFile of the file fails with EACCES
+type FSFault struct {
+	Path string `json:"path"` // relative to the scratch tree
+	Kind string `json:"kind"`
 }
 
 type Task struct {
